@@ -160,12 +160,13 @@ selectwriter:
 			return err
 		}
 
+		// (the file could be opened; the writer opens it again on demand)
+		file.Close()
 		if l.Roller != nil && !l.Roller.Disabled {
-			file.Close()
 			l.Roller.Filename = l.Output
 			l.writer = l.Roller.GetLogWriter()
 		} else {
-			l.writer = file
+			l.writer = &plainFile{name: l.Output}
 		}
 	}
 
@@ -173,6 +174,51 @@ selectwriter:
 
 	return nil
 
+}
+
+// plainFile is the writer of a log file that is not rolled. Like the rolling
+// writer it holds no descriptor until the first entry is written, and it opens
+// the file once more for an entry that arrives after Close: an instance whose
+// load is rejected after its startup callbacks never runs its shutdown
+// callbacks (it must not keep the file open for the life of the process), and a
+// request that outlives the grace period of a reload writes its entry after
+// the old instance's shutdown callbacks have run (it must not be lost).
+type plainFile struct {
+	name   string
+	mu     sync.Mutex
+	file   *os.File
+	closed bool
+}
+
+func (p *plainFile) Write(b []byte) (int, error) {
+	p.mu.Lock()
+	defer p.mu.Unlock()
+	if p.file == nil {
+		file, err := os.OpenFile(p.name, os.O_WRONLY|os.O_CREATE|os.O_APPEND, 0644)
+		if err != nil {
+			return 0, err
+		}
+		p.file = file
+	}
+	n, err := p.file.Write(b)
+	if p.closed {
+		// a late entry: do not leave the file open behind it
+		p.file.Close()
+		p.file = nil
+	}
+	return n, err
+}
+
+func (p *plainFile) Close() error {
+	p.mu.Lock()
+	defer p.mu.Unlock()
+	p.closed = true
+	if p.file == nil {
+		return nil
+	}
+	err := p.file.Close()
+	p.file = nil
+	return err
 }
 
 // Close closes open log files or connections to syslog.
